@@ -354,17 +354,23 @@ class Spec:
             if x < 1.0:
                 dn = sec_to_ns_exact(x)
                 if self.fake:
-                    v = "1" if dn <= -SLACK else ("0" if dn >= 0 else None)
+                    v = "1" if dn <= -SLACK else ("0" if dn >= 0 else "?")
                 else:
-                    v = "1" if dn <= -MARGIN else ("0" if dn >= MARGIN else None)
-                exp = "polled=0 period=%s v=" % fb(-1.0)
-                if v is None:
-                    if not out.startswith(exp):
-                        return ("Planner::solve(%r): %s, expected %s…" % (x, out, exp), klass)
-                    return (None, klass)
-                exp += v
+                    v = "1" if dn <= -MARGIN else ("0" if dn >= MARGIN else "?")
+                want = ["polled=0", "period=" + fb(-1.0), "v=" + v]
             else:
-                exp = "polled=1 period=%s v=0" % fb(min(x / 100.0, 0.1))
+                want = ["polled=1", "period=" + fb(min(x / 100.0, 0.1)), "v=0"]
+            got = out.split()
+            if len(got) != 3 or [g.split("=")[0] for g in got] != ["polled", "period", "v"]:
+                return ("unparsable answer %r to `%s`" % (out, line), "protocol")
+            for g, w in zip(got, want):
+                # `?` = the harness could not observe that field conclusively (or the property leaves it open)
+                if g.endswith("=?"):
+                    self.uncertain += 1
+                    continue
+                if not w.endswith("=?") and g != w:
+                    return ("Planner::solve(%r) answered %r, the property says %r" % (x, out, " ".join(want)), klass)
+            return (None, klass)
         else:
             exp = "bad-op"
         if touch:
@@ -969,8 +975,14 @@ def canon(impl, model):
         y = model[i] if i < len(model) else "<missing>"
         if y.startswith("r=? ") and (x.startswith("r=0 ") or x.startswith("r=1 ")):
             x = y = "r=?"
-        elif y.endswith(" v=?") and x[:-1] == y[:-1]:
-            x = y
+        elif y.startswith("polled=") and x.startswith("polled="):
+            # a field either side could not determine (`?`) is not compared
+            fx, fy = x.split(), y.split()
+            if len(fx) == len(fy) == 3:
+                for j in range(3):
+                    if fx[j].endswith("=?") or fy[j].endswith("=?"):
+                        fx[j] = fy[j] = fx[j].split("=")[0] + "=?"
+                x, y = " ".join(fx), " ".join(fy)
         a.append(x)
         b.append(y)
     return a, b
@@ -1034,6 +1046,8 @@ def judge(ck, hbin, script, tag, res):
     for o in impl:
         if o in ("bad-op", "dup", "unknown", "none"):
             ck.count("answer:" + o)
+        elif o.startswith("polled="):
+            ck.count("solve:observed" if "=?" not in o.rsplit(" ", 1)[0] else "solve:form-or-period-not-conclusive")
     ck.count("oracle:no-demand-evaluations", res["spec"].uncertain)
     ck.count("oracle:rounding-sensitive-cost-decisions", res["spec"].rounding_sensitive)
     ck.count("model:scheduling-dependent-lines", sum(1 for m in res["model"] if m.startswith("r=?")))
@@ -1112,7 +1126,8 @@ def run(ck):
     ck.trusted += [
         "harness/ptc.cpp: scripted leaves, second-thread terminate(), `#define private public` for its own translation unit "
         "(IterationTerminationCondition::timesCalled_ for `itcset`; PlannerTerminationCondition::impl_ read through a "
-        "self-tested layout mirror to observe period_ in `solve`)",
+        "self-tested layout mirror to observe period_ in `solve`); which form solve(double) picked is observed by which "
+        "thread reads the clock during evaluations (interposed clock_gettime), never by timing or thread counts",
         "clock=fake: the harness's own clock_gettime() definition is what libstdc++'s system_clock::now() resolves to "
         "(verified by the corpus script timed-boundary: a change of 1 ns at the deadline flips the answer)",
         "the independent Python spec (checks/c18.py: Spec) as the reading of the property text",
